@@ -212,7 +212,7 @@ def run(ck):
     ck.run_rule("C07.R9b", "printing a diagnostic never raises: both handlers on every span position of small files", 1, c07.rule_R9b)
     ck.run_rule("G13n", "no primitive parser matches the empty string (a parser that matched has consumed input)", 40, loops.rule_G13n)
     from ..rules import route
-    ck.run_rule("DIR.route", "a statement that is neither an instruction, a directive nor a constant is an error, never dropped silently", 5, route.rule_route, ("fallback",))
+    ck.run_rule("DIR.route", "a statement that is neither an instruction, a directive nor a constant is an error, never dropped silently; a refused RADIX-50 character still leaves a well-formed word", 5, route.rule_route, ("fallback", "rad50"))
     from . import c16
     ck.run_rule("C16.R3", "'.once' cuts inclusion cycles: the counter is advanced before the body is compiled", 3, c16.rule_R3)
     from ..rules import deliver
@@ -227,6 +227,8 @@ def run(ck):
     ck.run_rule("C06.R1c", "declared operands reach get_as_int / get_as_str as (state, what, statement token, operand token): a symbol operand does not die on a permuted call", 4, c06.rule_cook_contract)
     from ..rules import route as _route
     ck.run_rule("BLK.route", "implicit word lists, constants and labels compiled as statements of a block: values, byte order, the label's address", 1, _route.rule_block_route)
+    from . import c17 as _c17
+    ck.run_rule("C17.span", "tokens span their own text and Token.text() returns it (the branch encoder looks for '(' and ':' in the operand as written)", 150, _c17.rule_spans)
     ck.run_rule("C03.R1u", "a name nobody defines: one error, then an integer value and no definition site (no None reaches arithmetic)", 1, c11.rule_undefined_value)
     ck.run_rule("C11.R5", "'.extern all' leaves a usable location (P7)", 4, c11.rule_R5)
     ck.run_rule("C03.R6", "operators applied to not-yet-known operands defer and later evaluate without raising", 9, c03.rule_R6)
